@@ -17,10 +17,12 @@ def logvar(name):
     y = z3.Real('y_' + name)
     # exp is strictly increasing: order and equality of the log-variables and of their monomial variables agree (without this a
     # branch on energies, e.g. allclose(E, E[0]), is feasible for the solver although the y values are pinned apart)
-    for n2, (E2, y2) in ENG.logv.items():
+    import os as _os
+    for n2, (E2, y2) in (ENG.logv.items() if not _os.environ.get('VERIF_NO_MONO') else []):
         if n2 != name:
             ENG.assumes.append(z3.And((E < E2) == (y < y2), (E == E2) == (y == y2)))
-    ENG.assumes.append(z3.And((E < 0) == (y < 1), (E == 0) == (y == 1)))
+    if not _os.environ.get('VERIF_NO_MONO'):
+        ENG.assumes.append(z3.And((E < 0) == (y < 1), (E > 0) == (y > 1)))
     ENG.logv[name] = (E, y)
     ENG.assumes.append(y > 0)
     return Sym(E, {'lin': (Fraction(0), {name: Fraction(1)})})
